@@ -15,6 +15,7 @@ def gen(rng, kind, subset, obs_subset, hetero):
     cfg = dict(kind=kind, P=prand(rng, nv, 2, 3) or {(0,) * nv: 1}, q=prand(rng, nv, 2, 2) or {(0,) * nv: 1},
                plain=[dy(rng, 1, 3), dy(rng), dy(rng)], pts=[[dy(rng) for _ in range(nv)] for _ in range(n)], w=rng.randint(1, 4) / 2,
                batched={k: [dy(rng) for _ in range(n)] for k in subset}, hetero=(prand(rng, nv, 1, 2) or {(0,) * nv: 1}) if hetero else None)
+    cfg["rev_batch_keys"] = rng.random() < 0.5
     cfg["own_kind"] = {k: rng.choice(["float", "float", "pyint", "intarray"]) for k in KEYS}
     for j, k in enumerate(KEYS):
         if cfg["own_kind"][k] != "float":
@@ -46,10 +47,16 @@ def build(cfg):
     P = Params(nn_params=u.init_params(), eq_params={k: own(k, v) for k, v in zip(KEYS, cfg["plain"])})
     q, hp, hp2 = cfg["q"], cfg["hetero"], cfg.get("hetero2")
     col = lambda rows: jnp.array(rows)[:, None]
-    pb = {k: col(v) for k, v in cfg["batched"].items()} or None
+    order = list(cfg["batched"].items())
+    if cfg.get("rev_batch_keys"):
+        order = order[::-1]                      # the batch dictionary written in any key order, built directly (no helper sorts it)
+    pb = {k: col(v) for k, v in order} or None
     ob = None
     if cfg.get("obs"):
-        ob = {"pinn_in": jnp.array(cfg["obs"]["inputs"]), "val": jnp.array(cfg["obs"]["vals"])[:, None], "eq_params": {k: col(v) for k, v in cfg["obs"]["eq"].items()}}
+        oeq = list(cfg["obs"]["eq"].items())
+        if cfg.get("rev_batch_keys"):
+            oeq = oeq[::-1]
+        ob = {"pinn_in": jnp.array(cfg["obs"]["inputs"]), "val": jnp.array(cfg["obs"]["vals"])[:, None], "eq_params": {k: col(v) for k, v in oeq}}
     het = None
     if kind == "ode":
         if hp:
